@@ -1391,7 +1391,17 @@ def canonical_func(fi):
                     body[i_] = L().visit(other)
         ast.fix_missing_locations(fn_node)
     lambdas_for_local_defs(node)
-    node = D().visit(node)
+    # the shape rules feed each other (a merged conditional return makes the list end in a return again): a few rounds
+    prev = None
+    for _ in range(4):
+        node = D().visit(node)
+        ast.fix_missing_locations(node)
+        forward_substitute(node.body)
+        merge_tail_returns(node.body)
+        now = ast.dump(node)
+        if now == prev:
+            break
+        prev = now
     ast.fix_missing_locations(node)
     node = _split_versions(fi, node)
     node = _fold_temp_loops(node)
